@@ -13,7 +13,7 @@ import (
 
 func main() {
 	if len(os.Args) < 2 {
-		fmt.Fprintln(os.Stderr, "usage: netfail hist|guard|fan [flags]")
+		fmt.Fprintln(os.Stderr, "usage: netfail hist|guard|fan|delayed [flags]")
 		os.Exit(2)
 	}
 	fs := flag.NewFlagSet(os.Args[1], flag.ExitOnError)
@@ -29,6 +29,8 @@ func main() {
 		runHist(*n, *out, *replay, *known, *par, int64(*stream))
 	case "guard":
 		runGuard(*n, *out, *replay, *par, int64(*stream))
+	case "delayed":
+		runDelayed(*n, *out, *replay)
 	case "fan":
 		runFan(*n, *out, *replay, *par, int64(*stream))
 	default:
